@@ -164,6 +164,9 @@ class C17(Check):
         total = sum(r["dt"] for r in plan["records"]) / max(1, len({r["producer"] for r in plan["records"]}) or 1)
         plan["close_at"] = rng.choice([0.0, total * 0.3, total * 0.9, total + 0.001, total + 1.0])
         plan["modes_seed"] = rng.getrandbits(30)
+        # the local UTC offset while the run logs differs from the one gallia.log captured when it was imported
+        # (a daylight-saving switch, a laptop carried across time zones): timestamps must still denote the same instants
+        plan["local_tz"] = rng.choice([None, None, None, "Europe/Berlin", "America/St_Johns", "Asia/Kolkata", "Pacific/Chatham"])
         plan["burst"] = 0
         if index % 250 == 100:
             # a burst of many short records while the consumer gets no CPU (whatever is queued must still reach the file)
@@ -184,9 +187,23 @@ class C17(Check):
     def run(self, plan: dict[str, Any]) -> dict[str, Any]:
         res = new_result()
         world = CmdWorld(seed=1, log_level=1)
+        import os
+        import time as _t
+
+        old_tz = os.environ.get("TZ")
         try:
+            if plan.get("local_tz"):
+                os.environ["TZ"] = plan["local_tz"]
+                _t.tzset()
+                bump(res["faults"], "local_utc_offset_changed_since_import")
             self._run(plan, world, res)
         finally:
+            if plan.get("local_tz"):
+                if old_tz is None:
+                    os.environ.pop("TZ", None)
+                else:
+                    os.environ["TZ"] = old_tz
+                _t.tzset()
             world.uninstall()
             world.destroy()
         return res
